@@ -496,6 +496,9 @@ def gen_extras(start, want_types, specials):
         if has("Hash"):
             add("<%s as Hash>::hash" % t, t, "hash", [g], ["Ty::S(Elem::U64)"],
                 "    let s: glam::%s = V::from_val(&a[0]);\n    vec![Val::U64(crate::ops::hash_of(&s))]" % t, ["self"])
+            # containers hash their elements through the provided method `hash_slice`, which an impl may override
+            add("<%s as Hash>::hash_slice (hash of [a, b])" % t, t, "hash_slice", [g, g], ["Ty::S(Elem::U64)"],
+                "    let x: glam::%s = V::from_val(&a[0]);\n    let y: glam::%s = V::from_val(&a[1]);\n    vec![Val::U64(crate::ops::hash_of(&[x, y]))]" % (t, t), ["a", "b"])
         if kind == "vec" and elem in ("f32", "f64"):
             add("%s::map (|e| e * 2 + 1)" % t, t, "map", [g], [g],
                 "    let s: glam::%s = V::from_val(&a[0]);\n    vec![V::into_val(s.map(|e| e * 2.0 + 1.0))]" % t, ["self"])
